@@ -152,6 +152,7 @@ pub fn transcript(keep: usize, scale: usize) -> Transcript {
                         ROp::Pos => show(&guard(|| r.r.bit_pos().unwrap())),
                         ROp::Seek(p) => show(&guard(|| r.r.set_bit_pos(*p).unwrap())),
                         ROp::IoRead(n) => show(&guard(|| r.r.io_read(*n).unwrap())),
+                        ROp::PastEnd => show(&guard(|| r.r.read_bits(64))),
                         ROp::CloneSwitch => {
                             if let Some(c) = r.r.try_clone() {
                                 r.r = c;
